@@ -1,8 +1,10 @@
 import J5V.Props.C04
 #print axioms J5V.Props.C04.C04_field_roundtrip
 #print axioms J5V.Props.C04.C04_reader_total
+#print axioms J5V.Props.C04.C04_properties_roundtrip
 #print axioms J5V.Props.C04.C04_root_roundtrip
 #print axioms J5V.Props.C04.C04_names_order_paths
+#print axioms J5V.Props.C04.C04_root_entity_invented_counterexample
 #print axioms J5V.Props.C04.C04_norm_int_meaning
 #print axioms J5V.Props.C04.C04_reflected_same_meaning
 #print axioms J5V.Props.C04.C04_norm_int_idem
@@ -11,4 +13,5 @@ import J5V.Props.C04
 #print axioms J5V.Props.C04.C04_array_key_counterexample
 #print axioms J5V.Props.C04.C04_string_id62_pattern_counterexample
 #print axioms J5V.Props.C04.C04_custom_id62_key_lr_counterexample
+#print axioms J5V.Props.C04.C04_map_value_annotations_counterexample
 #print axioms J5V.Props.C04.C04_enum_decl_normal_form
